@@ -130,19 +130,24 @@ func applyRef(r *ref, o Op) string {
 	return o.K
 }
 
-// classOf builds the cause key. If the failing container was internally inconsistent (values is
-// not the inverse of mapping) since an earlier step, the cause is the category of THAT step
-// (e.g. a put that changed a key's value), whatever step exposed it and whichever container
-// shows it. Otherwise <what is wrong>:<category of the failing step>, prefixed when only the
-// exclusive container fails.
-func classOf(w *watched, obj, cat string, plain bool, suffix string) string {
-	if w.rootCat != "" {
+// classOf builds the cause key (smallest failing shape):
+//   - if the failing container was internally inconsistent (values not the inverse of mapping)
+//     since some step, the cause is the category of THAT step (e.g. a put that changed a key's
+//     value), whatever later step exposed it and whichever container shows it;
+//   - otherwise <what is wrong>:<category of the failing step>; failures that only the exclusive
+//     container shows are prefixed, and those after registrations made while the watch was down
+//     (where a reload cannot tell the container which key of a value registered last: the
+//     delivery order is the map's, a re-registration with the same value is no diff) are one class.
+func classOf(w *watched, obj, cat string, plain bool, offline bool) string {
+	switch {
+	case w.rootCat != "":
 		return obj + ":" + w.rootCat
-	}
-	if plain {
+	case plain:
 		return obj + ":" + cat
+	case offline:
+		return "exclusive-only:registration-order-lost-by-reload"
 	}
-	return "exclusive-only:" + obj + ":" + cat + suffix
+	return "exclusive-only:" + obj + ":" + cat
 }
 
 func runContainer(observe bool, path []Op, log io.Writer) (string, *failure) {
@@ -189,9 +194,9 @@ func runContainer(observe bool, path []Op, log io.Writer) (string, *failure) {
 		}
 		if last || log != nil {
 			if objP != "" {
-				return key, &failure{classOf(wp, objP, cat, true, ""), msgP}
+				return key, &failure{classOf(wp, objP, cat, true, false), msgP}
 			} else if objX != "" {
-				return key, &failure{classOf(wx, objX, cat, false, ""), msgX}
+				return key, &failure{classOf(wx, objX, cat, false, false), msgX}
 			}
 		}
 	}
